@@ -24,6 +24,7 @@ func checkC02(p *Prog, r *Report) {
 	nmoveSweeps(p, r, "C02.R10")
 	c02Inputs(p, r, "C02.R11")
 	uptakeReset(p, r, "C02.R12")
+	denitrBalance(p, r, "C02.R13")
 }
 
 func walkedOpaque(p *Prog, key string, opaque ...string) *Exec {
